@@ -132,3 +132,64 @@ package plugin
 //@ at call NewCLIPlugin: assert[C20.name-from-file] arg1 == pluginName && arg2 == pluginExecutableFile
 //@ ensures-local[C20.version-rule] result2 == nil ==> newPluginMetadata != nil && result1 == newPluginMetadata && result == existingPluginMetadata && mayReplace(installOpts.Overwrite, existingPluginMetadata, newPluginMetadata)
 //@ ensures result2 != nil ==> result == nil && result1 == nil
+
+//@ func setExecutable
+//@ props C20
+//@ os-calls-only[C20.chmod-only] os.Stat os.Chmod
+//@ at call os.Chmod: assert[C20.chmod-target] arg0 == filePath && arg1 == bitor(statMode(filePath), 64)
+
+// ---- C12: thin no-panic contracts (generated by `govc sweep`, then completed by hand where a callee needs more) ----
+
+//@ func (*CLIPlugin).DescribeKey
+//@ props C12
+//@ requires p != nil && ctx != nil && req != nil
+//@ modifies any
+
+//@ func (*CLIPlugin).GenerateEnvelope
+//@ props C12
+//@ requires p != nil && ctx != nil && req != nil
+//@ modifies any
+
+//@ func (*CLIPlugin).GenerateSignature
+//@ props C12
+//@ requires p != nil && ctx != nil && req != nil
+//@ modifies any
+
+//@ func (*CLIPlugin).VerifySignature
+//@ props C12
+//@ requires p != nil && ctx != nil && req != nil
+//@ modifies any
+
+//@ func (InstallEqualVersionError).Error
+//@ props C12
+//@ modifies any
+
+//@ func (PluginDowngradeError).Error
+//@ props C12
+//@ modifies any
+
+//@ func (PluginExecutableFileError).Unwrap
+//@ props C12
+//@ modifies any
+
+//@ func (PluginMalformedError).Unwrap
+//@ props C12
+//@ modifies any
+
+//@ func NewCLIManager
+//@ props C12
+//@ ensures result != nil && fresh(result) && result.pluginFS == pluginFS
+//@ modifies any
+
+
+// the library constructs these two errors only with a message or an inner error (plugin.go); an Error() call on a value
+// with neither is a caller's own construction
+//@ func (PluginMalformedError).Error
+//@ props C12
+//@ requires e.Msg != "" || e.InnerError != nil
+//@ modifies any
+
+//@ func (PluginExecutableFileError).Error
+//@ props C12
+//@ requires e.Msg != "" || e.InnerError != nil
+//@ modifies any
